@@ -40,7 +40,7 @@ fn detail(s: &Stream, entry: &str, extra: String) -> Json {
 /// Push one valid stream through every entry point; returns false if any violated.
 pub fn check_all_entry_points(prop: &str, rep: &mut Report, s: &Stream, rng: &mut Rng) -> bool {
     let mut ok = true;
-    let mut vio = |rep: &mut Report, entry: &str, what: String| {
+    let vio = |rep: &mut Report, entry: &str, what: String| {
         rep.violation(&format!("{}:{}:{}", prop, entry, what.split(':').next().unwrap_or("")), format!("{} on valid stream from {}: {}", entry, s.source, what), detail(s, entry, what.clone()));
     };
     let n = s.plain.len();
